@@ -194,8 +194,13 @@ def answer (toks : List String) : String :=
     showBools (thresholdAdjacencyX (xmatFn (xMat w)) (xnum t) n.toNat!)
   | ["ldf", n, s, e, nb] =>
     let N := n.toNat!
+    -- through the generated script of the method; the answer as counts over `hist.sum()`
     let hist := histogram (allEntries (matFn (ratMat s)) N) (rats e) nb.toNat!
-    showNats ((List.range nb.toNat!).map fun i => (hist.take i).sum) ++ "/" ++ toString hist.sum
+    match Pyunicorn.Similarity.Script.ldfRun Pyunicorn.Generated.StructC09.linkDensityFunction
+        (matFn (ratMat s)) N (rats e) nb.toNat! with
+    | none => "raise:script"
+    | some out =>
+      showNats (out.map fun q => (q * ((hist.sum : Nat) : Rat)).floor.toNat) ++ "/" ++ toString hist.sum
   | ["tfld", n, s, r] =>
     let N := n.toNat!
     match (rat? r).bind fun ρ =>
